@@ -22,14 +22,18 @@ TOOLS = "/root/.rustup/toolchains/nightly-x86_64-unknown-linux-gnu/lib/rustlib/x
 TGT = "/tmp/covbuild"
 PROF = "/tmp/covprof"
 args = sys.argv[1:]
-if "--build" in args:
+BUILD = "--build" in args
+if BUILD:
     args.remove("--build")
-    env = dict(os.environ, CARGO_TARGET_DIR=TGT, RUSTFLAGS="--cfg sozu_verif -C instrument-coverage", CARGO_NET_OFFLINE="true",
-               LLVM_PROFILE_FILE="/tmp/covprof/build-%p.profraw")   # instrumented build scripts run in /repo/<crate>: keep their profiles out of /repo
-    subprocess.check_call(["cargo", "+nightly", "build", "--offline", "--release", "--bins"], cwd=os.path.join(ROOT, "harness"), env=env)
+    pass
 props = {json.loads(l)["id"]: json.loads(l) for l in open(os.path.join(ROOT, "properties.jsonl"))}
 ids = args or sorted(props)
 os.makedirs(os.path.join(ROOT, "coverage"), exist_ok=True)
+if BUILD:
+    need = sorted({r["bin"] for i in ids for r in json.load(open(os.path.join(ROOT, "tools", "props", i + ".json")))["runs"]})
+    env = dict(os.environ, CARGO_TARGET_DIR=TGT, RUSTFLAGS="--cfg sozu_verif -C instrument-coverage", CARGO_NET_OFFLINE="true",
+               LLVM_PROFILE_FILE="/tmp/covprof/build-%p.profraw")   # instrumented build scripts run in /repo/<crate>: keep their profiles out of /repo
+    subprocess.check_call(["cargo", "+nightly", "build", "--offline", "--release", ] + [x for b in need for x in ("--bin", b)], cwd=os.path.join(ROOT, "harness"), env=env)
 FN = re.compile(r"^\s*(?:pub(?:\([a-z: ]+\))?\s+)?(?:const\s+)?(?:async\s+)?(?:unsafe\s+)?fn\s+([A-Za-z0-9_]+)")
 
 
@@ -105,6 +109,35 @@ for pid in ids:
         }
     missing = [a[len("/repo/"):] for a in anchors if not any(p == a or p.startswith(a.rstrip("/") + "/") for p in per)]
     out["anchored_files_not_linked_or_never_instrumented"] = missing
+    # uncovered executable line ranges of the anchored files (llvm-cov show: `line| count|source`)
+    srcs = ["/repo/" + f for f in out["files"]]
+    if srcs:
+        show = [os.path.join(TOOLS, "llvm-cov"), "show", "-instr-profile", pd, bins[0]]
+        for b in bins[1:]:
+            show += ["-object", b]
+        txt = subprocess.run(show + srcs, stdout=subprocess.PIPE, text=True, errors="replace").stdout
+        cur, zero = None, {}
+        for ln in txt.splitlines():
+            if ln.startswith("/repo/") and ln.endswith(":"):
+                cur = ln[len("/repo/"):-1]
+                continue
+            m = re.match(r"^\s*(\d+)\|\s*([0-9.kMG]*)\|", ln)
+            if m and cur is not None:
+                if m.group(2) == "0":
+                    zero.setdefault(cur, []).append(int(m.group(1)))
+        for f, ls in zero.items():
+            rng, a, b = [], None, None
+            for l in ls:
+                if a is None:
+                    a = b = l
+                elif l == b + 1:
+                    b = l
+                else:
+                    rng.append([a, b]); a = b = l
+            if a is not None:
+                rng.append([a, b])
+            if f in out["files"]:
+                out["files"][f]["uncovered_line_ranges"] = rng
     json.dump(out, open(os.path.join(ROOT, "coverage", pid + ".json"), "w"), indent=1)
     print(pid, {k: f"{v['entered']}/{v['functions']} fns, {v['line_percent']}% lines" for k, v in out["files"].items()}, "missing:", missing)
     subprocess.call(["rm", "-rf", pdir])
